@@ -8,9 +8,11 @@
      a_json_err   the text of serde_json's error for a payload that does not parse,
      a_fmt_float  how serde_json re-spells a number token that is not a plain integer in u64 / i64 range
                   (f64 parsing + shortest round-trip printing; None = "number out of range"),
-     a_validate   schema validation of the value (validate_stream_event after the optional id normalisation,
-                  validate_response_resource of its `response` member): (errors, response_errors).
-   No proofs here. *)
+     a_vstream    the stream-event schema validator (rip_openresponses::validate_stream_event): its error strings,
+     a_vresp      the response-resource schema validator (validate_response_resource): its error strings.
+   The id normalisation applied before validation under ValidationOptions::compat_missing_item_ids
+   (normalize_event_for_validation / normalize_response_resource / normalize_output_item) is modelled (`normalize_event`);
+   the option itself is the field a_compat.  No proofs here. *)
 From RipV Require Import Base.Prelude Base.Utf8 Base.Json Model.Sse.
 From RipV Require Base.JsonParse.
 
@@ -23,6 +25,20 @@ Definition M_NEST3 : str := [32; 99; 97; 110; 32; 98; 101; 32; 115; 116; 111; 11
 Definition M_MIS1 : str := [101; 118; 101; 110; 116; 32; 110; 97; 109; 101; 32; 39].   (* "event name '" *)
 Definition M_MIS2 : str := [39; 32; 100; 111; 101; 115; 32; 110; 111; 116; 32; 109; 97; 116; 99; 104; 32; 116; 121; 112; 101; 32; 39].   (* "' does not match type '" *)
 Definition M_MIS3 : str := [39].   (* "'" *)
+
+Definition S_ID : str := [105; 100].   (* 'id' *)
+Definition S_CALL_ID : str := [99; 97; 108; 108; 95; 105; 100].   (* 'call_id' *)
+Definition S_FUNCTION_CALL : str := [102; 117; 110; 99; 116; 105; 111; 110; 95; 99; 97; 108; 108].   (* 'function_call' *)
+Definition S_FUNCTION_CALL_OUTPUT : str := [102; 117; 110; 99; 116; 105; 111; 110; 95; 99; 97; 108; 108; 95; 111; 117; 116; 112; 117; 116].   (* 'function_call_output' *)
+Definition S_ITEM_PFX : str := [105; 116; 101; 109; 95].   (* 'item_' *)
+Definition S_OUTPUT_PFX : str := [111; 117; 116; 112; 117; 116; 95].   (* 'output_' *)
+Definition S_ITEM : str := [105; 116; 101; 109].   (* 'item' *)
+Definition S_RESPONSE : str := [114; 101; 115; 112; 111; 110; 115; 101].   (* 'response' *)
+Definition S_OUTPUT : str := [111; 117; 116; 112; 117; 116].   (* 'output' *)
+Definition S_OUTPUT_INDEX : str := [111; 117; 116; 112; 117; 116; 95; 105; 110; 100; 101; 120].   (* 'output_index' *)
+Definition S_ITEM_ID : str := [105; 116; 101; 109; 95; 105; 100].   (* 'item_id' *)
+Definition S_FCA_DELTA : str := [114; 101; 115; 112; 111; 110; 115; 101; 46; 102; 117; 110; 99; 116; 105; 111; 110; 95; 99; 97; 108; 108; 95; 97; 114; 103; 117; 109; 101; 110; 116; 115; 46; 100; 101; 108; 116; 97].   (* 'response.function_call_arguments.delta' *)
+Definition S_FCA_DONE : str := [114; 101; 115; 112; 111; 110; 115; 101; 46; 102; 117; 110; 99; 116; 105; 111; 110; 95; 99; 97; 108; 108; 95; 97; 114; 103; 117; 109; 101; 110; 116; 115; 46; 100; 111; 110; 101].   (* 'response.function_call_arguments.done' *)
 
 (* ---------- decimal printing of a number (format!("{n}")) ---------- *)
 Fixpoint dec_go (fuel : nat) (n : N) (acc : str) : str :=
@@ -46,9 +62,11 @@ Definition plain_int (tok : str) : bool :=
                else all_digits tok && (digits_val 0 tok <=? U64MAX)
   end.
 
-Record absfns := { a_json_err : str -> str;
+Record absfns := { a_compat : bool;                       (* ValidationOptions.normalize_missing_item_ids (not abstract: a setting) *)
+                   a_json_err : str -> str;
                    a_fmt_float : str -> option str;
-                   a_validate : json -> list str * list str }.
+                   a_vstream : json -> list str;
+                   a_vresp : json -> list str }.
 
 (* ---------- serde_json::Value from the AST ---------- *)
 Fixpoint str_cmp (a b : str) : comparison :=
@@ -120,6 +138,85 @@ Definition get_str (k : str) (v : json) : option str :=      (* value.get(k).and
   | _ => None
   end.
 
+Definition get (k : str) (v : json) : option json :=           (* value.get(k) *)
+  match v with JObj kvs => assoc k kvs | _ => None end.
+(* Value::as_u64: Some for a non-negative integer that fits u64 (after `canon` those are exactly the plain integer
+   tokens without a sign; floats — "1.0", "1e2" — and negative numbers give None) *)
+Definition as_u64 (v : json) : option N :=
+  match v with
+  | JNum t => match t with
+              | [] => None
+              | c :: _ => if negb (c =? cMINUS) && plain_int t then Some (digits_val 0 t) else None
+              end
+  | _ => None
+  end.
+Definition nonempty_str (o : option str) : option str := match o with Some ((_ :: _) as s) => Some s | _ => None end.
+
+(* normalize_output_item: an item without a non-empty string `id` gets one from its call_id, else from its index *)
+Definition normalize_output_item (item : json) (output_index : option N) : json :=
+  match item with
+  | JObj kvs =>
+    match nonempty_str (get_str S_ID item) with
+    | Some _ => item
+    | None =>
+      let with_id (pfx_call pfx_idx : str) :=
+        match nonempty_str (get_str S_CALL_ID item) with
+        | Some c => JObj (obj_insert S_ID (JStr (pfx_call ++ c)) kvs)
+        | None => match output_index with
+                  | Some n => JObj (obj_insert S_ID (JStr (pfx_idx ++ dec n)) kvs)
+                  | None => item
+                  end
+        end in
+      match get_str S_TYPE item with
+      | Some t => if str_eqb t S_FUNCTION_CALL then with_id [] S_ITEM_PFX
+                  else if str_eqb t S_FUNCTION_CALL_OUTPUT then with_id S_OUTPUT_PFX S_OUTPUT_PFX
+                  else item
+      | None => item
+      end
+    end
+  | _ => item
+  end.
+Fixpoint normalize_items (idx : N) (items : list json) : list json :=
+  match items with
+  | [] => []
+  | it :: r => normalize_output_item it (Some idx) :: normalize_items (idx + 1) r
+  end.
+(* normalize_response_resource: every item of `output` (when an array), with its position *)
+Definition normalize_response_resource (response : json) : json :=
+  match response with
+  | JObj kvs => match assoc S_OUTPUT kvs with
+                | Some (JArr items) => JObj (obj_insert S_OUTPUT (JArr (normalize_items 0 items)) kvs)
+                | _ => response
+                end
+  | _ => response
+  end.
+(* normalize_event_for_validation *)
+Definition normalize_event (v : json) : json :=
+  match v with
+  | JObj kvs =>
+    let output_index := match assoc S_OUTPUT_INDEX kvs with Some x => as_u64 x | None => None end in
+    let kvs1 := match assoc S_ITEM kvs with
+                | Some item => obj_insert S_ITEM (normalize_output_item item output_index) kvs
+                | None => kvs
+                end in
+    let kvs2 := match assoc S_RESPONSE kvs1 with
+                | Some r => obj_insert S_RESPONSE (normalize_response_resource r) kvs1
+                | None => kvs1
+                end in
+    let is_fca := match get_str S_TYPE (JObj kvs2) with
+                  | Some t => str_eqb t S_FCA_DELTA || str_eqb t S_FCA_DONE
+                  | None => false
+                  end in
+    let no_item_id := match assoc S_ITEM_ID kvs2 with Some (JStr (_ :: _)) => false | _ => true end in
+    if is_fca && no_item_id
+    then match (match assoc S_OUTPUT_INDEX kvs2 with Some x => as_u64 x | None => None end) with
+         | Some n => JObj (obj_insert S_ITEM_ID (JStr (S_ITEM_PFX ++ dec n)) kvs2)
+         | None => JObj kvs2
+         end
+    else JObj kvs2
+  | _ => v
+  end.
+
 (* output_text_delta (lib.rs): the mapper looks at the payload's `type` only, never at the SSE event name *)
 Definition text_delta (v : json) : option str :=
   match get_str S_TYPE v with
@@ -140,14 +237,18 @@ Definition name_mismatch (ev : option str) (v : json) : list str :=
 Definition nest_msg (n : nat) : str :=
   M_NEST1 ++ dec (N.of_nat n) ++ M_NEST2 ++ dec (N.of_nat MAX_PAYLOAD_NESTING) ++ M_NEST3.
 
+(* ParsedEvent::event: what is validated, and the errors of the `response` member *)
+Definition validation_data (v : json) : json := if a_compat A then normalize_event v else v.
+Definition response_errors (v : json) : list str :=
+  match get S_RESPONSE (validation_data v) with Some r => a_vresp A r | None => [] end.
+
 (* SseDecoder::parse_event after the "[DONE]" test *)
 Definition jclassify (ev : option str) (raw : str) : cls :=
   match parse_value_of raw with
   | None => CInvalid [a_json_err A raw]
   | Some v =>
     if (MAX_PAYLOAD_NESTING <? json_depth v)%nat then CInvalid [nest_msg (json_depth v)]
-    else let '(verrs, rerrs) := a_validate A v in
-         CEvent v (verrs ++ name_mismatch ev v) rerrs (text_delta v)
+    else CEvent v (a_vstream A (validation_data v) ++ name_mismatch ev v) (response_errors v) (text_delta v)
   end.
 
 End Classify.
@@ -193,20 +294,24 @@ Definition enc_frame (f : frame) : list N :=
   | FDelta s d => 1 :: s :: enc_str d
   end.
 
-(* the abstract functions as finite tables computed by the harness (with serde_json and the validators,
-   independently of the chunked run); a_validate is keyed by the printed value *)
-Record tables := { t_err : list (str * str);
+(* the abstract functions as finite tables computed by the harness (with serde_json and direct calls of the two
+   validators, independently of the decoder); the validators are keyed by the printed value *)
+Record tables := { t_compat : bool;
+                   t_err : list (str * str);
                    t_num : list (str * option str);
-                   t_val : list (str * (list str * list str)) }.
+                   t_vs : list (str * list str);
+                   t_vr : list (str * list str) }.
 Fixpoint lookup {X} (t : list (str * X)) (k : str) (dflt : X) : X :=
   match t with
   | [] => dflt
   | (k', x) :: r => if lN_eqb k' k then x else lookup r k dflt
   end.
 Definition abs_of (T : tables) : absfns :=
-  {| a_json_err := fun raw => lookup (t_err T) raw [];
+  {| a_compat := t_compat T;
+     a_json_err := fun raw => lookup (t_err T) raw [];
      a_fmt_float := fun tok => lookup (t_num T) tok None;
-     a_validate := fun v => lookup (t_val T) (print v) ([], []) |}.
+     a_vstream := fun v => lookup (t_vs T) (print v) [];
+     a_vresp := fun v => lookup (t_vr T) (print v) [] |}.
 
 Inductive case :=
 | CUtf8 (bs : list N) (expect : list N)                                   (* std::str::from_utf8 *)
